@@ -27,6 +27,18 @@ def repo_check():
 
 
 def mk_direct(case, dtype=float):
+    dts = case.get("dtypes")
+    if dts and dtype is float and all(isinstance(t, str) for t in dts):
+        if all(t == "int64" for t in dts):
+            mtx = np.array([[int(x) for x in r] for r in case["matrix"]], dtype=np.int64)
+            dts = None
+        else:
+            mtx = np.array(case["matrix"], dtype=float)
+        return mkdm(mtx, objectives=list(case["objectives"]),
+                    weights=list(case["weights"]) if case.get("weights") is not None else None,
+                    alternatives=list(case["alternatives"]) if case.get("alternatives") else None,
+                    criteria=list(case["criteria"]) if case.get("criteria") else None,
+                    **({"dtypes": [np.dtype(t) for t in dts]} if dts else {}))
     mtx = np.array(case["matrix"], dtype=dtype)
     return mkdm(
         mtx,
@@ -50,7 +62,10 @@ def mk_route(case):
         return "direct"
     key = json.dumps([case["matrix"], list(case["objectives"]), list(case["weights"]),
                       list(case["alternatives"]), list(case["criteria"])], sort_keys=True, default=str)
-    return ROUTES[zlib.crc32(key.encode()) % len(ROUTES)]
+    r = ROUTES[zlib.crc32(key.encode()) % len(ROUTES)]
+    if case.get("dtypes") and r in ("slice", "iloc"):
+        return "copy" if r == "slice" else "dict"
+    return r
 
 
 def mk(case, dtype=float):
